@@ -500,6 +500,13 @@ func proofMode(K int, seed int64, states int, out *json.Encoder) error {
 			}
 		}
 		root := smt.Root()
+		// every node key of the tree (all lengths): material for proofs whose keys are well formed but of the wrong length
+		var treeKeys [][]byte
+		if nodes, e := smt.VerifNodes(); e == nil {
+			for _, nd := range nodes {
+				treeKeys = append(treeKeys, append([]byte{}, nd.Key...))
+			}
+		}
 		honest := map[string][]*lib.Node{}
 		for _, p := range pats {
 			pf, e := smt.GetMerkleProof([]byte(u.keyOf[p]))
@@ -548,6 +555,17 @@ func proofMode(K int, seed int64, states int, out *json.Encoder) error {
 				m := cloneProof(pf)
 				m[1], m[2] = m[2], m[1]
 				emit(m, "reorder-of-"+p)
+			}
+			// a well-formed key of another length in place of a proof node's key (a sibling that is a prefix of the path, ...)
+			for i := 0; i < len(pf); i++ {
+				for j, tk := range treeKeys {
+					if string(tk) == string(pf[i].Key) || (K > 3 && rng.Intn(3) != 0) {
+						continue
+					}
+					m := cloneProof(pf)
+					m[i].Key = append([]byte{}, tk...)
+					emit(m, fmt.Sprintf("keyswap-%d-%d-of-%s", i, j, p))
+				}
 			}
 			// structurally malformed: empty keys, huge padding byte, nil values
 			m := cloneProof(pf)
